@@ -7,12 +7,19 @@ Lemma all_sites_safe : forallb safe_site sites = true.
 Proof. vm_compute. reflexivity. Qed.
 
 Lemma no_site_leaks s ev :
-  In s sites -> log_client_ip ev = false ->
+  In s sites -> env_ok s ev = true -> log_client_ip ev = false ->
   has_addr (output default_level s ev) = false.
 Proof.
-  intros Hin Hl. apply safe_site_no_address; [|exact Hl].
+  intros Hin Hok Hl. apply safe_site_no_address; [|exact Hok|exact Hl].
   pose proof all_sites_safe as H. rewrite forallb_forall in H. exact (H _ Hin).
 Qed.
+
+(* every raw error argument of a site that prints at the default level has an address-free producer *)
+Definition raw_producers_ok (s : site) : bool :=
+  negb (prints default_level (s_level s)) ||
+  forallb (fun a => match a with AErr p => addr_free_producer p | _ => true end) (s_args s).
+Lemma all_raw_producers_address_free : forallb raw_producers_ok sites = true.
+Proof. vm_compute. reflexivity. Qed.
 
 (* ---- the level order the model uses is the one in pkg/station/log ---- *)
 
